@@ -31,6 +31,14 @@ VARIANT_VAR = {
     "BaseLdpStp.offset": 0x80000000, "BaseLdpStp.prepost": 0x80000000, "BaseRM_SImm9.offset": 0x40400000, "BaseRM_SImm9.prepost": 0x40400000,
     "BasePrfm.literal": 0, "BasePrfm.soffset": 0, "BasePrfm.register": 0,
     "BaseRM_SImm10.opcode": 0x00000800, "SimdLdurStur.opcode": 0xC0800000, "SimdShiftES.opcode": 0x40C00000,
+    "SimdFcvtSV.general": 0x80C00000, "SimdFcvtSV.general_fixed": 0x80C00000, "SimdFcvtSV.int_scalar": 0x00F8C000, "SimdFcvtSV.int_vector": 0x40F8C000,
+    "SimdFcvtSV.scalar_fixed": 0x00F8C000, "SimdFcvtSV.vector_fixed": 0x40F8C000,
+    "SimdLdNStN.replicate": 0x409F0C00, "SimdLdNStN.single": 0x409FFC00, "SimdLdNStN.multiple": 0x409FFC00,
+    "SimdCmp.reg3": 0x50C00000, "SimdCmp.zero": 0x50C00000, "SimdFmlal.regular": 0x40000000, "SimdFmlal.element": 0x40000000,
+    "SimdFcvtLN.ln_vector": 0x00400000, "SimdFcvtLN.ln_scalar": 0x00400000, "SimdDot.regular": 0x40000000, "SimdDot.element": 0x40000000,
+    "SimdFcm.register_scalar": 0x00F8C000, "SimdFcm.register_vector": 0x40F8C000, "SimdFcm.zero_scalar": 0x00F8C000, "SimdFcm.zero_vector": 0x40F8C000,
+    "SimdSxtlUxtl.opcode": 0x40380000, "SimdSmovUmov.opcode": 0x401F0000, "SimdTblTbx.opcode": 0x40006000,
+    "ISimdPair.scalar": 0, "ISimdPair.vector": 0x50C00000, "SimdBicOrr.reg3": 0x40000000,
     "ISimdVVVV.opcode": 0x50C00000, "FSimdSV.opcode": 0x60000000, "SimdFcadd.opcode": 0x40C00000, "SimdSm3tt.opcode": 0, "ISimdVVVVx.opcode": 0,
     "FSimdVV.scalar": 0x00F8C000, "FSimdVV.vector": 0x40F8C000, "FSimdVVV.scalar": 0x00F8C000, "FSimdVVV.vector": 0x40F8C000,
     "FSimdVVVV.scalar": 0x00F8C000, "FSimdVVVe.scalar": 0x00F8C000, "FSimdVVVe.vector": 0x40F8C000,
@@ -39,7 +47,32 @@ VARIANT_VAR = {
     "SimdLdSt.uoffset": 0xC0800800, "SimdLdSt.prepost": 0xC0800800, "SimdLdSt.register": 0xC0800800, "SimdLdSt.literal": 0xC0800800,
     "SimdLdpStp.offset": 0xC0000000, "SimdLdpStp.prepost": 0xC0000000,
 }
-IMM_KINDS = ("SAddImm", "SLogImm", "SImmLt", "SBitfield", "SImmU", "SImmS", "SVShift", "SImmRsub", "SFpImm")
+IMM_KINDS = ("SAddImm", "SLogImm", "SImmLt", "SBitfield", "SImmU", "SImmS", "SVShift", "SImmRsub", "SFpImm", "SImmAff")
+
+
+# encoding cases whose opcodes are LITERALS in a64assembler.cpp (no EncodingData constant): class -> bits the case ORs in (from the code:
+# sf 31 / Q 30, type 23:22, rmode/opcode 20:16 and 15, imm5 20:16, imm4 14:11, CRn 15:12 of the AT/DC/IC/TLBI ids, opc bit 10 of REV)
+LIT_VAR = {
+    "BaseRev": 0x80000400, "BaseMov": 0x80000000, "BaseAtDcIcTlbi": 0x0000F01F, "BaseSys": 0x0000001F, "BaseMrs": 0, "BaseMsr": 0,
+    "SimdFcsel": 0x00C00000, "SimdFcvt": 0x00C18000, "SimdFmov": 0xE0DF0800, "SimdDup": 0x401F0000, "SimdIns": 0x001F7800,
+}
+
+
+def literals(repo=None):
+    """pattern translator over /repo/asmjit/arm/a64assembler.cpp: the binary literals passed to opcode.reset() inside each
+    `case InstDB::kEncoding<Class>:` block -> {class: [words]}"""
+    import os, re
+    src = open(os.path.join(repo or vlib.REPO, "asmjit", "arm", "a64assembler.cpp")).read()
+    cases = [(m.start(), m.group(1)) for m in re.finditer(r"case InstDB::kEncoding(\w+):", src)]
+    cases.append((len(src), None))
+    out = {}
+    for (a, n), (b_, _) in zip(cases, cases[1:]):
+        if n in LIT_VAR:
+            ws = [int(x, 2) << (10 if sh else 0) for x, sh in re.findall(r"opcode\.reset\((0b[01]+)( << 10)?\)", src[a:b_])]
+            if ws:
+                out.setdefault(n, [])
+                out[n] += [w for w in ws if w not in out[n]]
+    return out
 
 
 def row_filter(variant, e):
@@ -48,6 +81,30 @@ def row_filter(variant, e):
     K = [s[0] for s in syn]
     mo = [s for s in syn if s[0] == "SMemOff"]
     vecs = [s for s in syn if s[0] == "SVec"]
+    if variant in ("ln_vector", "ln_scalar"):
+        return len(vecs) == 2 and len(syn) == 2 and (vecs[0][2] == 0) == (variant == "ln_scalar")
+    if variant == "reg3":
+        return "SImmConst" not in K and not any(k in K for k in IMM_KINDS)
+    if variant in ("int_scalar", "int_vector"):
+        return "SGp" not in K and "SVShift" not in K and bool(vecs) and (vecs[0][2] == 0) == (variant == "int_scalar")
+    if variant == "general":
+        return "SGp" in K and "SImmRsub" not in K
+    if variant == "general_fixed":
+        return "SGp" in K and "SImmRsub" in K
+    if variant in ("scalar_fixed", "vector_fixed"):
+        return "SGp" not in K and "SVShift" in K and bool(vecs) and (vecs[0][2] == 0) == (variant == "scalar_fixed")
+    if variant == "replicate":
+        return True
+    if variant == "single":
+        return "SVecElem" in K or "SVecListElem" in K
+    if variant == "multiple":
+        return "SVecList" in K or ("SVec" in K and "SVecElem" not in K)
+    if variant == "zero":
+        return "SImmConst" in K
+    if variant in ("register_scalar", "register_vector"):
+        return "SImmConst" not in K and bool(vecs) and (vecs[0][2] == 0) == (variant == "register_scalar")
+    if variant in ("zero_scalar", "zero_vector"):
+        return "SImmConst" in K and bool(vecs) and (vecs[0][2] == 0) == (variant == "zero_scalar")
     if variant == "shifted":
         return "SShift" in K and "SExtReg" not in K
     if variant == "extended":
@@ -79,7 +136,7 @@ def row_filter(variant, e):
     return True
 
 
-def build(ck, b):
+def build(ck, b, names_cls=None):
     exe = ck.build_harness("c02tables", ["c02_tables.cpp"])
     rc, out, err = vlib.sh([exe], timeout=60)
     if rc != 0:
@@ -93,6 +150,10 @@ def build(ck, b):
     total = 0
     for ln in out.splitlines():
         iid, name, cls, w = ln.split()
+        if cls.endswith(".lit"):          # instruction of a class whose opcodes are literals in the encoder's source
+            names_cls = names_cls if names_cls is not None else {}
+            names_cls[int(iid)] = (name, cls[:-4])
+            continue
         total += 1
         ids_seen.add(int(iid))
         if "." in cls:
@@ -116,30 +177,53 @@ def build(ck, b):
             continue
         ents.append((int(iid), name, cls, int(w), CLASS_VAR[cls], rids))
         ids_cov.add(int(iid))
+    # literal opcodes of the classes without table constants
+    lits = literals()
+    lit_ents = []
+    if names_cls:
+        for iid, (name, cls) in sorted(names_cls.items()):
+            if cls in lits and iid not in ids_cov:
+                rids = by.get((name, not cls.startswith("Base")), [])
+                if rids:
+                    lit_ents.append((iid, name, cls, lits[cls], LIT_VAR[cls], rids))
+                    ids_cov.add(iid)
     L = ["(* GENERATED by tools/c02_tables.py from the InstDB::EncodingData arrays of /repo (harness/c02_tables.cpp). Do not edit.",
          "   (instruction id, opcode word of its table row, bits the encoding class ORs in itself, ids of the supported database rows of the instruction) *)",
          "From Coq Require Import ZArith List Bool.", "From Verif Require Import A64.A64Tmpl A64.A64Sem.", "From VerifGen Require Import IsaA64Db.",
          "Import ListNotations.", "Local Open Scope Z_scope.", "Definition enc_table : list (Z * Z * Z * list Z) := ["]
     L.append(";\n".join("  (* %s %s *) (%d, %d, %d, [%s])" % (n, c, i, w, v, "; ".join(map(str, r))) for i, n, c, w, v, r in ents))
-    L += ["].", "Definition enc_table_count : Z := %d." % len(ents),
+    L += ["].", "(* literal opcodes of the encoder's source (tools/c02_tables.py literals()): (instruction id, literals of its encoding case, bits the case ORs in, row ids) *)",
+          "Definition lit_table : list (Z * list Z * Z * list Z) := ["]
+    L.append(";\n".join("  (* %s %s *) (%d, [%s], %d, [%s])" % (n, c, i, "; ".join(map(str, ws)), v, "; ".join(map(str, r))) for i, n, c, ws, v, r in lit_ents))
+    L += ["].", "Lemma lit_table_agrees : forallb (lit_entry_ok rows) lit_table = true.", "Proof. vm_compute. reflexivity. Qed.",
+          "Definition enc_table_count : Z := %d." % len(ents),
           "Lemma enc_table_agrees : forallb (table_entry_ok rows) enc_table = true.", "Proof. vm_compute. reflexivity. Qed.",
           "Lemma enc_table_counted : Z.of_nat (length enc_table) = enc_table_count.", "Proof. vm_compute. reflexivity. Qed."]
-    return {"coq": "\n".join(L) + "\n", "entries": len(ents), "ents": ents, "instructions_covered": len(ids_cov), "instructions_dumped": len(ids_seen), "dumped": total, "classes_not_covered": skipped, "without_supported_rows": norows}
+    return {"coq": "\n".join(L) + "\n", "entries": len(ents), "ents": ents, "lit_ents": lit_ents, "literal_entries": len(lit_ents), "instructions_covered": len(ids_cov), "instructions_dumped": len(ids_seen), "dumped": total, "classes_not_covered": skipped, "without_supported_rows": norows}
 
 
 def disagreeing(tb, b):
     """python replica of table_entry_ok, only to NAME the entries when the Coq lemma fails"""
     rows = {e["row"]["idx"]: e for e in b["sup"]}
     out = []
+    def fixed(rid):
+        v = m = 0
+        pos = 32
+        for it in rows[rid]["items"]:
+            if it[0] == "F":
+                pos -= it[1]; v |= it[2] << pos; m |= ((1 << it[1]) - 1) << pos
+            else:
+                pos -= it[2] - it[3] + 1
+        return v, m
     for iid, name, cls, w, var, rids in tb["ents"]:
         for rid in rids:
-            v = m = 0
-            pos = 32
-            for it in rows[rid]["items"]:
-                if it[0] == "F":
-                    pos -= it[1]; v |= it[2] << pos; m |= ((1 << it[1]) - 1) << pos
-                else:
-                    pos -= it[2] - it[3] + 1
+            v, m = fixed(rid)
             if (w ^ v) & m & (0xFFFFFFFF ^ var):
                 out.append("%s (%s): table word %08X vs database row `%s` fixed bits %08X/mask %08X" % (name, cls, w, rows[rid]["row"]["inst"], v, m))
+    for iid, name, cls, ws, var, rids in tb.get("lit_ents", []):
+        for rid in rids:
+            v, m = fixed(rid)
+            if not any((w ^ v) & m & (0xFFFFFFFF ^ var) == 0 for w in ws):
+                out.append("%s (%s): none of the source literals %s agrees with database row `%s` fixed bits %08X/mask %08X" % (
+                    name, cls, ["%08X" % w for w in ws], rows[rid]["row"]["inst"], v, m))
     return out
